@@ -24,13 +24,13 @@ PY = "/venv/bin/python"
 PIDS = [f"C{i:02d}" for i in range(1, 21)]
 
 
-def collect(root: str) -> None:
-    for d in sorted(glob.glob(os.path.join(root, "B*"))):
-        pid = "C" + os.path.basename(d)[1:]
+def collect(root: str, prefix: str = "B", tag: str = "b") -> None:
+    for d in sorted(glob.glob(os.path.join(root, prefix + "*"))):
+        pid = "C" + os.path.basename(d)[len(prefix):]
         for diff in sorted(glob.glob(os.path.join(d, "_out", "b*.diff"))):
             i = os.path.basename(diff)[1:-5]
             meta = os.path.join(d, "_out", f"b{i}_meta.json")
-            dest = os.path.join(BENIGN, f"{pid}-b{i}")
+            dest = os.path.join(BENIGN, f"{pid}-{tag}{i}")
             if os.path.exists(os.path.join(dest, "patch.diff")):
                 continue
             if os.path.getsize(diff) == 0:
@@ -105,7 +105,7 @@ def report():
 
 def main():
     if sys.argv[1:2] == ["--collect"]:
-        return collect(sys.argv[2])
+        return collect(*sys.argv[2:5])
     if sys.argv[1:] == ["--report"]:
         return report()
     ids = sys.argv[1:] or sorted(x for x in os.listdir(BENIGN) if os.path.isdir(os.path.join(BENIGN, x)))
